@@ -16,9 +16,14 @@ MANIFEST = {
             "correspondence only. Argument shuffle: Model/ArgShuffle.lean is an executable model of init_work_data, WorkData, the three phases "
             "of emit_args_assignment and of emit_arg_move/emit_reg_move/emit_reg_swap (x86 and a64) that reproduces the real Builder output "
             "instruction for instruction on every generated line. Proved: the x86 integer move selection extends as the types require for all "
-            "type pairs (x86_int_arg_move_extends), AArch64 loads likewise outside two excluded classes; the full-strength shuffle_correct is "
-            "stated, NOT proved, and shown false at the K3/K4/K5 witnesses (theorems by evaluation of the model). The schedule-level induction "
-            "is not done: every schedule the real code emits is instead judged by the abstract machine of Spec/Machine.lean (monitor = testing).",
+            "type pairs (x86_int_arg_move_extends), AArch64 loads likewise outside two excluded classes; the register phase at schedule "
+            "level (shuffle_regphase_correct: induction over visits and passes with the invariant 'phys is the inverse of cur, every value "
+            "sits at cur, writes hit only unassigned registers or exchange two variables'): from any well-formed context, for every number "
+            "of register arguments and every injective destination assignment, ok => every destination holds its variable in destination "
+            "form, under hypotheses that exclude exactly K3 (widening variable in an exchanged pair) and K5 (selection that does not extend); "
+            "K4 is outside the invariant. NOT proved: that init_work_data establishes the invariant, phases 1/3 (stack) and the SA variable; "
+            "the full-strength shuffle_correct is shown false at the K3/K4/K5 witnesses. Every schedule the real code emits is additionally "
+            "judged by the abstract machine of Spec/Machine.lean (monitor = testing).",
     "note": "Model follows the code with fixes C06-1..6 (in /repo) and fixes/C06-7 (float<->double conversions inverted; until applied the "
             "check reports exactly that violation). Trusted: Lean kernel; Spec/ABI.lean and Spec/Machine.lean as the meaning of the ABIs / of "
             "the mov family; the FuncFrame facts (dirty/preserved masks, SA register/offsets) are inputs taken from the real frame (C07); the "
@@ -292,7 +297,8 @@ def run(res):
                       "on them" % (o, a, b, n), {"ops": [o], "impl": a, "model": b,
                                                  "unchecked": "correspondence Model/ArgShuffle.lean ~ emithelper.cpp/funcargscontext.cpp"},
                       False, key="corr")
-    elif broken and not res.violations:
+    if broken:
+        # always reported (known findings among res.violations must not hide a failed proof build)
         res.violation("proof obligation no longer checks: " + " | ".join(broken)[:1500], {"unchecked": broken}, False, key="obligation")
 
 
